@@ -500,7 +500,7 @@ class Real:
 
     def decode(self, afi: int, safi: int, data: bytes):
         try:
-            nlri, rest = self.NLRI.unpack_nlri(self.AFI.from_int(afi), self.SAFI.from_int(safi), data, self.Action.ANNOUNCE, False, self.neg)
+            nlri, rest = self.NLRI.unpack_nlri(self.AFI.from_int(afi), self.SAFI.from_int(safi), memoryview(bytes(data)), self.Action.ANNOUNCE, False, self.neg)
         except self.Notify as n:
             return {'kind': 'notify', 'code': (n.code, n.subcode)}
         except Exception as e:  # noqa
